@@ -515,6 +515,13 @@ func genCase(r *common.Rng, c dcfg, kind string, w *bufio.Writer) {
 		ton += 15 * sec
 	}
 	ffcLeft := 0
+	// the power-on FFC: the camera's clock starts at zero, the first frames lie inside a period whose LastFFCTime is 0
+	zeroPeriod := (kind == "ffc" || kind == "dyn") && r.Chance(25)
+	if zeroPeriod {
+		ton = r.Pick64(0, sec/9, sec, 3*sec)
+		lastFFC = 0
+		ffcLeft = r.Range(1, c.gap+3)
+	}
 	scene := newFrame(c, base)
 	sceneB := scene.clone()
 	diverge := kind == "ffcpair" || kind == "resetpair" // B's content differs until the pivot
@@ -579,10 +586,13 @@ func genCase(r *common.Rng, c dcfg, kind string, w *bufio.Writer) {
 			if r.Chance(20) {
 				lf = ton + r.Pick64(1, 3*sec)
 			}
-			if lf < 0 {
+			if lf < 0 || zeroPeriod {
 				lf = 0
 			}
 			ffcLeft--
+			if ffcLeft == 0 {
+				zeroPeriod = false
+			}
 			if kind == "ffcpair" && !pivotDone && i >= pivotAt {
 				// from the first frame of this period on, both histories have the same content
 				pivotDone = true
